@@ -205,7 +205,7 @@ func c03Families(tier string) []engine.Family {
 	L := tierPick(tier, 4, 5)
 	args := []uint64{0, 1, 1 << 31, 1 << 32, 1 << 62, 1<<63 - 1, 1 << 63, 1<<64 - 1}
 	tails := [][]byte{{}, {0x61}, {0x61, 0x01}}
-	edSc := docScope{Nodes: tierPick(tier, 2, 3), UBJTypes: tierPick(tier, 6, 12), JSONTok: tierPick(tier, 2, 3), JSONAtoms: 1, NumStride: tierPick(tier, 60, 10), Ctx: tierPick(tier, 2, 4), ScStride: tierPick(tier, 4, 1)}
+	edSc := docScope{Nodes: 3, UBJTypes: tierPick(tier, 4, 12), JSONTok: tierPick(tier, 2, 3), JSONAtoms: 1, NumStride: tierPick(tier, 60, 10), Ctx: tierPick(tier, 2, 4), ScStride: tierPick(tier, 4, 1)}
 	fams := []engine.Family{
 		{Name: "all-bytes-len<=2", Arity: []int{3, 257}, Body: func(x *engine.Exec) {
 			cd := codecs[x.Choose(3)]
